@@ -849,6 +849,8 @@ class Builtins:
                 want_all = name == "all"
 
                 def k_it(it, st2):
+                    if isinstance(it, VRef) and st2.heap[it.oid].kind in ("list", "tuple") and st2.heap[it.oid].meta.get("pyitems") is not None:
+                        it = VTuple(list(st2.heap[it.oid].meta["pyitems"]))          # a list known item by item (display + appends)
                     if not isinstance(it, VTuple):
                         raise Unsupported("%s() over %r" % (name, it))
                     items = list(it.items)
